@@ -6,17 +6,20 @@ From LV Require Import Base.Conc Base.Events Model.DhpLang Model.Dhp Proofs.DhpB
   Proofs.DhpLangProofs Proofs.DhpInvB Proofs.DhpConsInv Proofs.DhpConsQuietB Proofs.DhpConsQuietB2.
 Import ListNotations.
 
-Definition set_own (v : VB) x := mkVB x (vb_node v) (vb_new v) (vb_blk v) (vb_limbo v) (vb_pend v) (vb_freed v) (vb_full v) (vb_move v) (vb_cur v) (vb_dead v).
-Definition set_node (v : VB) x := mkVB (vb_own v) x (vb_new v) (vb_blk v) (vb_limbo v) (vb_pend v) (vb_freed v) (vb_full v) (vb_move v) (vb_cur v) (vb_dead v).
-Definition set_new (v : VB) x := mkVB (vb_own v) (vb_node v) x (vb_blk v) (vb_limbo v) (vb_pend v) (vb_freed v) (vb_full v) (vb_move v) (vb_cur v) (vb_dead v).
-Definition set_blk (v : VB) x := mkVB (vb_own v) (vb_node v) (vb_new v) x (vb_limbo v) (vb_pend v) (vb_freed v) (vb_full v) (vb_move v) (vb_cur v) (vb_dead v).
-Definition set_limbo (v : VB) x := mkVB (vb_own v) (vb_node v) (vb_new v) (vb_blk v) x (vb_pend v) (vb_freed v) (vb_full v) (vb_move v) (vb_cur v) (vb_dead v).
-Definition set_pend (v : VB) x := mkVB (vb_own v) (vb_node v) (vb_new v) (vb_blk v) (vb_limbo v) x (vb_freed v) (vb_full v) (vb_move v) (vb_cur v) (vb_dead v).
-Definition set_freed (v : VB) x := mkVB (vb_own v) (vb_node v) (vb_new v) (vb_blk v) (vb_limbo v) (vb_pend v) x (vb_full v) (vb_move v) (vb_cur v) (vb_dead v).
-Definition set_full (v : VB) x := mkVB (vb_own v) (vb_node v) (vb_new v) (vb_blk v) (vb_limbo v) (vb_pend v) (vb_freed v) x (vb_move v) (vb_cur v) (vb_dead v).
-Definition set_move (v : VB) x := mkVB (vb_own v) (vb_node v) (vb_new v) (vb_blk v) (vb_limbo v) (vb_pend v) (vb_freed v) (vb_full v) x (vb_cur v) (vb_dead v).
-Definition set_cur (v : VB) x := mkVB (vb_own v) (vb_node v) (vb_new v) (vb_blk v) (vb_limbo v) (vb_pend v) (vb_freed v) (vb_full v) (vb_move v) x (vb_dead v).
-Definition set_dead (v : VB) x := mkVB (vb_own v) (vb_node v) (vb_new v) (vb_blk v) (vb_limbo v) (vb_pend v) (vb_freed v) (vb_full v) (vb_move v) (vb_cur v) x.
+Definition set_own (v : VB) x := mkVB x (vb_node v) (vb_new v) (vb_blk v) (vb_limbo v) (vb_pend v) (vb_freed v) (vb_full v) (vb_move v) (vb_cur v) (vb_dead v) (vb_arr v) (vb_mine v) (vb_s0 v).
+Definition set_node (v : VB) x := mkVB (vb_own v) x (vb_new v) (vb_blk v) (vb_limbo v) (vb_pend v) (vb_freed v) (vb_full v) (vb_move v) (vb_cur v) (vb_dead v) (vb_arr v) (vb_mine v) (vb_s0 v).
+Definition set_new (v : VB) x := mkVB (vb_own v) (vb_node v) x (vb_blk v) (vb_limbo v) (vb_pend v) (vb_freed v) (vb_full v) (vb_move v) (vb_cur v) (vb_dead v) (vb_arr v) (vb_mine v) (vb_s0 v).
+Definition set_blk (v : VB) x := mkVB (vb_own v) (vb_node v) (vb_new v) x (vb_limbo v) (vb_pend v) (vb_freed v) (vb_full v) (vb_move v) (vb_cur v) (vb_dead v) (vb_arr v) (vb_mine v) (vb_s0 v).
+Definition set_limbo (v : VB) x := mkVB (vb_own v) (vb_node v) (vb_new v) (vb_blk v) x (vb_pend v) (vb_freed v) (vb_full v) (vb_move v) (vb_cur v) (vb_dead v) (vb_arr v) (vb_mine v) (vb_s0 v).
+Definition set_pend (v : VB) x := mkVB (vb_own v) (vb_node v) (vb_new v) (vb_blk v) (vb_limbo v) x (vb_freed v) (vb_full v) (vb_move v) (vb_cur v) (vb_dead v) (vb_arr v) (vb_mine v) (vb_s0 v).
+Definition set_freed (v : VB) x := mkVB (vb_own v) (vb_node v) (vb_new v) (vb_blk v) (vb_limbo v) (vb_pend v) x (vb_full v) (vb_move v) (vb_cur v) (vb_dead v) (vb_arr v) (vb_mine v) (vb_s0 v).
+Definition set_full (v : VB) x := mkVB (vb_own v) (vb_node v) (vb_new v) (vb_blk v) (vb_limbo v) (vb_pend v) (vb_freed v) x (vb_move v) (vb_cur v) (vb_dead v) (vb_arr v) (vb_mine v) (vb_s0 v).
+Definition set_move (v : VB) x := mkVB (vb_own v) (vb_node v) (vb_new v) (vb_blk v) (vb_limbo v) (vb_pend v) (vb_freed v) (vb_full v) x (vb_cur v) (vb_dead v) (vb_arr v) (vb_mine v) (vb_s0 v).
+Definition set_cur (v : VB) x := mkVB (vb_own v) (vb_node v) (vb_new v) (vb_blk v) (vb_limbo v) (vb_pend v) (vb_freed v) (vb_full v) (vb_move v) x (vb_dead v) (vb_arr v) (vb_mine v) (vb_s0 v).
+Definition set_dead (v : VB) x := mkVB (vb_own v) (vb_node v) (vb_new v) (vb_blk v) (vb_limbo v) (vb_pend v) (vb_freed v) (vb_full v) (vb_move v) (vb_cur v) x (vb_arr v) (vb_mine v) (vb_s0 v).
+Definition set_arr (v : VB) x := mkVB (vb_own v) (vb_node v) (vb_new v) (vb_blk v) (vb_limbo v) (vb_pend v) (vb_freed v) (vb_full v) (vb_move v) (vb_cur v) (vb_dead v) x (vb_mine v) (vb_s0 v).
+Definition set_mine (v : VB) x := mkVB (vb_own v) (vb_node v) (vb_new v) (vb_blk v) (vb_limbo v) (vb_pend v) (vb_freed v) (vb_full v) (vb_move v) (vb_cur v) (vb_dead v) (vb_arr v) x (vb_s0 v).
+Definition set_s0 (v : VB) x := mkVB (vb_own v) (vb_node v) (vb_new v) (vb_blk v) (vb_limbo v) (vb_pend v) (vb_freed v) (vb_full v) (vb_move v) (vb_cur v) (vb_dead v) (vb_arr v) (vb_mine v) x.
 
 Definition setv (a : AuxB) (t : nat) (v : VB) : AuxB := mkAuxB (fn (bvs a) t v) (rbown a) (wh a) (rch a) (rw a) (moved a) (dead a) (tl a).
 
